@@ -172,13 +172,13 @@ OffsetText(min) == (IF min < 0 THEN "-" ELSE "+") \o Pad2(AbsI(min) \div 60) \o 
 RECURSIVE FindClose(_, _)
 FindClose(c, k) == IF k > Len(c) THEN 0 ELSE IF c[k] = "]" THEN k ELSE FindClose(c, k + 1)
 RECURSIVE Groups(_, _)
+\* bracket groups from p on, and what stops the sequence ("" = end of input)
 Groups(c, p) ==
-  IF p > Len(c) THEN [ok |-> TRUE, gs |-> <<>>]
-  ELSE IF c[p] # "[" THEN Fail(IF Len(c[p]) > 1 THEN "non-ascii" ELSE "trailing-junk")
+  IF p > Len(c) THEN [gs |-> <<>>, tail |-> ""]
+  ELSE IF c[p] # "[" THEN [gs |-> <<>>, tail |-> IF Len(c[p]) > 1 THEN "non-ascii" ELSE "trailing-junk"]
   ELSE LET q == FindClose(c, p + 1) IN
-       IF q = 0 THEN Fail("annotation-unclosed")
-       ELSE LET r == Groups(c, q + 1) IN
-            IF ~r.ok THEN r ELSE [ok |-> TRUE, gs |-> <<[a |-> p + 1, b |-> q - 1]>> \o r.gs]
+       IF q = 0 THEN [gs |-> <<>>, tail |-> "annotation-unclosed"]
+       ELSE LET r == Groups(c, q + 1) IN [gs |-> <<[a |-> p + 1, b |-> q - 1]>> \o r.gs, tail |-> r.tail]
 
 KeyOK(c, a, b) == a <= b /\ c[a] \in AKeyLead /\ \A k \in (a + 1)..b : c[k] \in AKeyChar
 ValOK(c, a, b) == /\ a <= b
@@ -212,15 +212,17 @@ Ann(c, g, first) ==
      ELSE IF ~NameOK(c, a, b) THEN Fail("tz-annotation-name")
      ELSE [ok |-> TRUE, k |-> "tz", tzk |-> "name", id |-> SubSeq(c, a, b), crit |-> crit]
 
+\* a hyphen-separated component of one character inside a longer annotation value
+OneCharComponent(v) == Len(v) > 1 /\ \E k \in 1..Len(v) : v[k] # "-" /\ (k = 1 \/ v[k - 1] = "-") /\ (k = Len(v) \/ v[k + 1] = "-")
 NoTz == [k |-> "none"]
 \* everything from position p to the end: [tz annotation] annotations*; calendar = first u-ca (lower-cased), <<>> if none
 AnnotsAt(c, p) ==
-  LET g == Groups(c, p) IN
-  IF ~g.ok THEN g ELSE
-  LET n == Len(g.gs)
+  LET g == Groups(c, p)
+      n == Len(g.gs)
       as == [k \in 1..n |-> Ann(c, g.gs[k], k = 1)]
       bad == {k \in 1..n : ~as[k].ok}
-  IN IF bad # {} THEN as[MinOf(bad)] ELSE
+  IN IF bad # {} THEN as[MinOf(bad)]          \* failures are reported in reading order
+     ELSE IF g.tail # "" THEN Fail(g.tail) ELSE
      LET cals == {k \in 1..n : as[k].k = "kv" /\ as[k].key = UCa}
          unk == {k \in 1..n : as[k].k = "kv" /\ as[k].key # UCa}
      IN IF \E k \in unk : as[k].crit THEN Fail("unknown-critical-annotation")
@@ -230,7 +232,8 @@ AnnotsAt(c, p) ==
               cal |-> IF cals = {} THEN <<>> ELSE LowSeq(as[MinOf(cals)].val),
               ncal |-> Cardinality(cals), nunk |-> Cardinality(unk),
               k1 |-> \E k \in 1..n : as[k].k = "kv" /\ Len(as[k].key) = 1,
-              v1 |-> \E k \in 1..n : as[k].k = "kv" /\ Len(as[k].val) = 1]
+              v1 |-> \E k \in 1..n : as[k].k = "kv" /\ Len(as[k].val) = 1,
+              vc1 |-> \E k \in 1..n : as[k].k = "kv" /\ OneCharComponent(as[k].val)]
 
 (* ---- the four date/time productions; each returns a parse record R ---- *)
 NoTime == [has |-> FALSE, h |-> 0, mi |-> 0, s |-> 0, fr |-> 0]
@@ -242,7 +245,7 @@ TzOf(t) == IF t.k = "none" THEN NoTz
            ELSE [k |-> "name", id |-> t.id, crit |-> t.crit]
 PRec(form, date, time, off, a, des) ==
   [ok |-> TRUE, form |-> form, date |-> date, time |-> time, off |-> off, tz |-> TzOf(a.tz), cal |-> a.cal,
-   des |-> des, k1 |-> a.k1, v1 |-> a.v1]
+   des |-> des, k1 |-> a.k1, v1 |-> a.v1, vc1 |-> a.vc1]
 
 \* AnnotatedDateTime: Date [sep Time [offset]] annotations
 ParseDT(c) ==
@@ -523,7 +526,7 @@ Outcome(goal, c) ==
     ELSE Accept([str |-> c, n |-> m.n, leap |-> m.leap])
   ELSE IF goal = "Calendar" THEN CalendarOutcome(c)
   ELSE LET R == ParseFor(goal, c) IN
-    IF ~R.ok THEN Reject(IF NonAscii(c) /\ R.why \notin {"non-ascii"} THEN "non-ascii/" \o R.why ELSE R.why)
+    IF ~R.ok THEN Reject(R.why)
     ELSE CASE goal = "PlainDate" -> DateOutcome(R)
            [] goal = "PlainDateTime" -> DateTimeOutcome(R)
            [] goal = "PlainTime" -> TimeOutcome(R)
@@ -552,11 +555,12 @@ Feature(goal, c) ==
     ELSE IF goal = "Duration" THEN
       (IF \E f \in {R.dur.y, R.dur.mo, R.dur.w} : Abs(f) = Sub(Two32, FromInt(1)) THEN "field-of-4294967295"
        ELSE IF R.fr = 5 THEN "fractional-hours" ELSE IF R.fr = 6 THEN "fractional-minutes" ELSE IF R.fr = 7 THEN "fractional-seconds" ELSE "integer-units")
+    ELSE IF goal \in {"PlainYearMonth", "PlainMonthDay"} /\ R.form = "dt" /\ ~IsIso(R) THEN "full-date-form-non-iso-calendar"
     ELSE IF goal = "PlainMonthDay" /\ R.form = "dt" THEN "full-date-form"
-    ELSE IF goal = "PlainYearMonth" /\ R.form = "dt" /\ ~IsIso(R) THEN "full-date-form-non-iso-calendar"
     ELSE IF R.tz.k = "name" /\ \A k \in 1..Len(R.tz.id) : R.tz.id[k] \in AKeyChar THEN "time-zone-name-of-annotation-key-characters"
     ELSE IF R.k1 THEN "annotation-key-of-one-character"
     ELSE IF R.v1 THEN "annotation-value-of-one-character"
+    ELSE IF R.vc1 THEN "annotation-value-with-one-character-component"
     ELSE IF goal = "ZonedDateTime" /\ R.off.k = "z" THEN "utc-designator-with-time-zone-annotation"
     ELSE IF goal = "ZonedDateTime" /\ R.off.k = "num" /\ R.off.m # 0 THEN "offset-with-non-zero-minutes"
     ELSE IF goal = "ZonedDateTime" /\ R.off.k = "num" /\ R.off.sub THEN "offset-with-seconds"
@@ -590,7 +594,7 @@ Start(f) ==
    y |-> 0, m |-> 0, d |-> 0, hasTime |-> FALSE, tform |-> "", h |-> 0, mi |-> 0, s |-> 0, fr |-> 0, hasfr |-> FALSE,
    offk |-> "none", osg |-> 1, oh |-> 0, om |-> 0, os |-> 0, ofr |-> 0, osub |-> FALSE, oform |-> "",
    tzk |-> "none", tzid |-> <<>>, tzmin |-> 0, tzcrit |-> FALSE,
-   cal |-> <<>>, k1 |-> FALSE, v1 |-> FALSE, des |-> FALSE,
+   cal |-> <<>>, k1 |-> FALSE, v1 |-> FALSE, vc1 |-> FALSE, des |-> FALSE,
    dsg |-> 1, dy |-> -1, dmo |-> -1, dw |-> -1, dd |-> -1, dh |-> -1, dmi |-> -1, ds |-> -1, dfu |-> 0, dfr |-> 0, dT |-> FALSE,
    whole |-> ""]
 
@@ -702,7 +706,7 @@ AnnGood == <<  \* text, cost, first calendar value (lower-cased), one-character 
   <<"[u-ca=islamic-civil]", 2, "islamic-civil", FALSE, FALSE>>, <<"[u-ca=foobar]", 2, "foobar", FALSE, FALSE>>,
   <<"[u-ca=iso8601][u-ca=gregory]", 2, "iso8601", FALSE, FALSE>>, <<"[u-ca=gregory][u-ca=iso8601]", 2, "gregory", FALSE, FALSE>>,
   <<"[foo=bar]", 1, "", FALSE, FALSE>>, <<"[foo=bar][u-ca=gregory]", 2, "gregory", FALSE, FALSE>>, <<"[u-ca=iso8601][foo=bar]", 2, "iso8601", FALSE, FALSE>>,
-  <<"[_x-1=a1-B2]", 2, "", FALSE, FALSE>>, <<"[x=bar]", 2, "", TRUE, FALSE>>, <<"[foo=b]", 2, "", FALSE, TRUE>>, <<"[u-cal=gregory]", 2, "", FALSE, FALSE>> >>
+  <<"[_x-1=a1-B2]", 2, "", FALSE, FALSE>>, <<"[foo=ba-r]", 2, "", FALSE, FALSE>>, <<"[x=bar]", 2, "", TRUE, FALSE>>, <<"[foo=b]", 2, "", FALSE, TRUE>>, <<"[u-cal=gregory]", 2, "", FALSE, FALSE>> >>
 AnnBad == <<
   <<"[!foo=bar]", "unknown-critical-annotation">>, <<"[u-ca=iso8601][!foo=bar]", "unknown-critical-annotation">>,
   <<"[u-ca=iso8601][!u-ca=gregory]", "calendar-annotations-critical-conflict">>, <<"[!u-ca=iso8601][u-ca=gregory]", "calendar-annotations-critical-conflict">>,
@@ -714,7 +718,7 @@ AnnBad == <<
   <<"[u-ca=iso8601", "annotation-unclosed">>, <<"[foo=bar]]", "trailing-junk">>, <<"[foo=bar] ", "trailing-junk">> >>
 AnnOpts ==
   <<Opt(<<>>, 0, "", [cal |-> <<>>])>>
-  \o [i \in 1..Len(AnnGood) |-> LET a == AnnGood[i] IN Opt(C(a[1]), a[2], "", [cal |-> C(a[3]), k1 |-> a[4], v1 |-> a[5]])]
+  \o [i \in 1..Len(AnnGood) |-> LET a == AnnGood[i] IN Opt(C(a[1]), a[2], "", [cal |-> C(a[3]), k1 |-> a[4], v1 |-> a[5], vc1 |-> a[1] = "[foo=ba-r]"])]
   \o [i \in 1..Len(AnnBad) |-> Opt(C(AnnBad[i][1]), 1, AnnBad[i][2], Nop)]
 
 LeadOpts == <<Opt(<<>>, 0, "", Nop), Opt(<<" ">>, 1, "leading-space", Nop), Opt(<<"U+00A0">>, 1, "non-ascii", Nop)>>
@@ -852,7 +856,7 @@ GenStruct(c) ==
    off |-> IF c.offk = "num" THEN [k |-> "num", sg |-> c.osg, h |-> c.oh, m |-> c.om, s |-> c.os, fr |-> c.ofr, sub |-> c.osub] ELSE [k |-> c.offk],
    tz |-> CASE c.tzk = "none" -> NoTz [] c.tzk = "offset" -> [k |-> "offset", min |-> c.tzmin, crit |-> c.tzcrit]
             [] OTHER -> [k |-> "name", id |-> c.tzid, crit |-> c.tzcrit],
-   cal |-> c.cal, des |-> c.des, k1 |-> c.k1, v1 |-> c.v1]
+   cal |-> c.cal, des |-> c.des, k1 |-> c.k1, v1 |-> c.v1, vc1 |-> c.vc1]
 \* duration fields the generator put in, as exact totals
 DVal32(v) == IF v = -2 THEN Sub(Two32, FromInt(1)) ELSE IF v = -1 THEN Zero ELSE FromInt(v)
 DurFracNs(c) == MulSmall(FromInt(c.dfr), CASE c.dfu = 5 -> 3600 [] c.dfu = 6 -> 60 [] OTHER -> 1)
